@@ -201,7 +201,7 @@ Theorem C11_tmp_reuse_refuted :
 Proof. exact tmp_reuse_refuted. Qed.
 Print Assumptions C11_tmp_reuse_refuted.
 
-Theorem C11_tmp_distinct_inhabited : alloc_fresh alloc_distinct h_two_actions.
+Theorem C11_tmp_distinct_inhabited : tmp_ids_fresh alloc_distinct h_two_actions.
 Proof. exact alloc_distinct_fresh. Qed.
 Print Assumptions C11_tmp_distinct_inhabited.
 
@@ -215,14 +215,17 @@ Theorem C11_cleanup_position_in_source :
 Proof. exact (conj eq_refl eq_refl). Qed.
 Print Assumptions C11_cleanup_position_in_source.
 
-(* it removes only instances that are FINISHED/STOPPED, not activated and strictly older than
-   the age, and only actions that no remaining instance references *)
+(* it removes only instances that are FINISHED/STOPPED, not activated, strictly older than the
+   age and not the parent of a running or activated instance, and only actions that no remaining
+   instance references *)
 Theorem C11_cleanup_only_done :
   forall now s s',
     NoDup (map fst (flows s)) -> cleanup_now now s = Some s' ->
     (forall u i, slook (flows s) u = Some i -> slook (flows s') u = None ->
        (i_status i = "FINISHED" \/ i_status i = "STOPPED") /\ i_activated i = 0 /\
-       cleanup_age_s * 1000000 < now - i_updated i) /\
+       cleanup_age_s * 1000000 < now - i_updated i /\
+       (forall v iv, In (v, iv) (flows s) -> i_parent iv = Some u ->
+          (i_status iv = "FINISHED" \/ i_status iv = "STOPPED") /\ i_activated iv = 0)) /\
     (forall a x, slook (actions s) a = Some x -> slook (actions s') a = None ->
        forall u i, In (u, i) (flows s') -> ~ In a (i_actions i)).
 Proof. exact only_done_now. Qed.
@@ -234,22 +237,22 @@ Theorem C11_cleanup_frame :
   forall now s s',
     NoDup (map fst (flows s)) -> cleanup_now now s = Some s' ->
     s_rest s' = s_rest s /\
-    (forall u i, slook (flows s) u = Some i -> removable cfg_now now i = false ->
+    (forall u i, slook (flows s) u = Some i -> rm cfg_now now s u i = false ->
        exists i', slook (flows s') u = Some i' /\ frame_rel (fun x => slook (flows s') x = None) i i') /\
     (forall u i', slook (flows s') u = Some i' ->
-       exists i, slook (flows s) u = Some i /\ removable cfg_now now i = false) /\
+       exists i, slook (flows s) u = Some i /\ rm cfg_now now s u i = false) /\
     (forall a x, slook (actions s') a = Some x -> slook (actions s) a = Some x) /\
     (forall u i a, In (u, i) (flows s') -> In a (i_actions i) -> slook (actions s') a <> None) /\
     (forall f l', slook (by_flow s') f = Some l' ->
        exists l, slook (by_flow s) f = Some l /\ (forall x, In x l' -> In x l) /\
                  (forall x, In x l -> ~ In x l' -> slook (flows s') x = None)) /\
     (forall f l, slook (by_flow s) f = Some l -> exists l', slook (by_flow s') f = Some l').
-Proof. exact (cleanup_frame cfg_now). Qed.
+Proof. exact frame_now. Qed.
 Print Assumptions C11_cleanup_frame.
 
 Theorem C11_cleanup_idempotent :
   forall now s s', NoDup (map fst (flows s)) -> cleanup_now now s = Some s' -> cleanup_now now s' = Some s'.
-Proof. exact (cleanup_idempotent cfg_now). Qed.
+Proof. exact idempotent_now. Qed.
 Print Assumptions C11_cleanup_idempotent.
 
 (* PARTIAL (the modelled part of event dispatch): if the matcher index lists only heads of
@@ -292,7 +295,7 @@ Theorem C11_cleanup_lookups :
          exists ix ix', slook (flows s) x = Some ix /\ slook (flows s') x = Some ix' /\
                         frame_rel (fun y => slook (flows s') y = None) ix ix') /\
       (forall x, In x (i_children i) -> ~ In x (i_children i') ->
-         exists ix, slook (flows s) x = Some ix /\ removable cfg_now now ix = true /\ slook (flows s') x = None) /\
+         exists ix, slook (flows s) x = Some ix /\ rm cfg_now now s x ix = true /\ slook (flows s') x = None) /\
       (forall k l' x, slook (i_scopes i') k = Some l' -> In x l' ->
          exists ix ix', slook (flows s) x = Some ix /\ slook (flows s') x = Some ix' /\
                         frame_rel (fun y => slook (flows s') y = None) ix ix') /\
@@ -347,6 +350,14 @@ Print Assumptions C11_bridge_inhabited.
 Theorem C11_cleanup_refs_inhabited : refs_ok ex_state.
 Proof. exact ex_state_refs_ok. Qed.
 Print Assumptions C11_cleanup_refs_inhabited.
+
+(* an ended flow that is still the parent of a running flow is kept, however old (the removal
+   condition reads the parent links of the pre-state) *)
+Theorem C11_cleanup_needed_parent_kept :
+  exists s', cleanup_now 100000000 ex_parent_state = Some s' /\
+             slook (flows s') "p" <> None /\ slook (flows s') "q" = None.
+Proof. exact needed_parent_kept. Qed.
+Print Assumptions C11_cleanup_needed_parent_kept.
 
 Theorem C11_cleanup_inhabited :
   exists s', cleanup_now 10000000 ex_state = Some s' /\ slook (flows s') "a1" = None /\
